@@ -65,6 +65,13 @@ fn case(inp: &[u64]) -> Result<(), String> {
     chk1!("SelectSmall<1,10>", SelectSmall::<1, 10, _>::new(RankSmall::<1, 10, _>::new(b.clone())));
     chk1!("SelectSmall<3,13>", SelectSmall::<3, 13, _>::new(RankSmall::<3, 13, _>::new(b.clone())));
     chk0!("SelectZeroSmall<2,9>", SelectZeroSmall::<2, 9, _>::new(RankSmall::<2, 9, _>::new(b.clone())));
+    // any number of blocks per inventory entry, zero (one entry per one) included
+    chk1!("SelectSmall<2,9>::with_inv(0)", SelectSmall::<2, 9, _>::with_inv(RankSmall::<2, 9, _>::new(b.clone()), 0));
+    chk1!("SelectSmall<1,10>::with_inv(1)", SelectSmall::<1, 10, _>::with_inv(RankSmall::<1, 10, _>::new(b.clone()), 1));
+    chk1!("SelectSmall<3,13>::with_inv(0)", SelectSmall::<3, 13, _>::with_inv(RankSmall::<3, 13, _>::new(b.clone()), 0));
+    chk1!("SelectSmall<1,9>::with_inv(100)", SelectSmall::<1, 9, _>::with_inv(RankSmall::<1, 9, _>::new(b.clone()), 100));
+    chk0!("SelectZeroSmall<2,9>::with_inv(0)", SelectZeroSmall::<2, 9, _>::with_inv(RankSmall::<2, 9, _>::new(b.clone()), 0));
+    chk0!("SelectZeroSmall<1,11>::with_inv(1)", SelectZeroSmall::<1, 11, _>::with_inv(RankSmall::<1, 11, _>::new(b.clone()), 1));
     chk0!("SelectZeroSmall<1,10>", SelectZeroSmall::<1, 10, _>::new(RankSmall::<1, 10, _>::new(b.clone())));
     // rank through wrapper stacks (C01: forwarding impls): rank(p) = ones among the first min(p, len) bits, for p beyond len too
     { let pref: Vec<usize> = { let mut v = vec![0usize; len + 1]; for i in 0..len { v[i + 1] = v[i] + b[i] as usize; } v };
